@@ -900,8 +900,16 @@ func run(c *vk.Ctx) {
 	}
 	if os.Getenv("VERIF_TRACE") != "" {
 		for _, sc := range scenarios(c.Thorough()) {
-			x := explore.Run(sc, nil)
-			fmt.Println("=== default schedule of", sc.Name, "->", x.Kind, x.Detail)
+			var prefix []int
+			for _, f := range strings.Split(os.Getenv("VERIF_PREFIX"), ",") {
+				if f != "" {
+					var k int
+					fmt.Sscan(f, &k)
+					prefix = append(prefix, k)
+				}
+			}
+			x := explore.Run(sc, prefix)
+			fmt.Println("=== schedule", prefix, "of", sc.Name, "->", x.Kind, x.Detail)
 			for i, p := range x.Points {
 				sh := ""
 				if p.DefLock != 0 && !x.Shared[p.DefLock] {
